@@ -12,7 +12,7 @@ def deep_snapshot(c):
         'inputs': list(c.inputs),
         'outputs': list(c.outputs),
         'gates': [(l, g.gate_type.name, tuple(g.operands)) for l, g in c.gates.items()],
-        'users': {l: sorted(u) for l, u in c._gate_to_users.items() if u},
+        'users': {l: sorted(c.get_gate_users(l)) for l in c.gates if c.get_gate_users(l)},
         'blocks': {n: (list(b.inputs), list(b.gates), list(b.outputs)) for n, b in c.blocks.items()},
     }
 
@@ -81,7 +81,7 @@ def errors(c, *, check_copy=True, check_topsort=True, limit=6):
             errs.append('users(%r) reported %r, operand relation gives %r' % (l, got, sorted(want.get(l, []))))
             if len(errs) >= limit:
                 return errs
-    for l, u in c._gate_to_users.items():
+    for l, u in getattr(c, '_gate_to_users', {}).items():
         if l not in gates and u:
             errs.append('users entry %r -> %r for a missing gate' % (l, u))
     # inputs == INPUT gates each once
@@ -152,11 +152,10 @@ def copy_errors(c):
                 errs.append('copy shares block %r state with original' % (n,))
             if b.circuit_owner is not k:
                 errs.append('copy block %r is owned by another circuit' % (n,))
-    if k.inputs is c.inputs or k.outputs is c.outputs or k.gates is c.gates or k.blocks is c.blocks \
-            or k._gate_to_users is c._gate_to_users:
+    if k.inputs is c.inputs or k.outputs is c.outputs or k.gates is c.gates or k.blocks is c.blocks:
         errs.append('copy shares a top-level container with original')
-    for l, u in k._gate_to_users.items():
-        if l in c._gate_to_users and u is c._gate_to_users[l]:
+    for l in k.gates:
+        if l in c.gates and k.get_gate_users(l) and k.get_gate_users(l) is c.get_gate_users(l):
             errs.append('copy shares users list of %r' % (l,))
             break
     # mutate the copy through public calls; original must not move
